@@ -31,6 +31,8 @@ type rop struct {
 	field  string
 	term   string
 	doc    uint64
+	nested bool   // stored: the visitor's first callback visits document doc2 completely before going on
+	doc2   uint64
 	fields []string
 	terms  []ftTerm
 }
@@ -45,6 +47,9 @@ func (o rop) String() string {
 		}
 		return fmt.Sprintf("postings(%q,%q)", o.field, o.term)
 	case 2:
+		if o.nested {
+			return fmt.Sprintf("stored(%d, visiting %d from inside the visitor)", o.doc, o.doc2)
+		}
 		return fmt.Sprintf("stored(%d)", o.doc)
 	case 3:
 		return fmt.Sprintf("docvalues(%q,%d)", o.fields, o.doc)
@@ -176,16 +181,32 @@ func (o rop) run(env *ropEnv) (res string, err error) {
 				fmt.Fprintf(&sb, "count=%d %v", pl.Count(), ps)
 			}
 		case 2:
+			entered := false
+			var innerErr error
+			var inner strings.Builder
 			err := env.seg.VisitStoredFields(o.doc, func(f string, v []byte) bool {
 				val := string(v) // copied at callback entry
 				if env.yield {
 					runtime.Gosched()
+				}
+				if o.nested && !entered {
+					entered = true
+					innerErr = env.seg.VisitStoredFields(o.doc2, func(f2 string, v2 []byte) bool {
+						fmt.Fprintf(&inner, "%s=%q ", f2, string(v2))
+						return true
+					})
 				}
 				fmt.Fprintf(&sb, "%s=%q ", f, val)
 				return true
 			})
 			if err != nil {
 				return err
+			}
+			if innerErr != nil {
+				return innerErr
+			}
+			if entered {
+				fmt.Fprintf(&sb, "| inner: %s", inner.String())
 			}
 		case 3:
 			key := fmt.Sprint(o.fields)
@@ -411,6 +432,12 @@ func genRops(t *rapid.T, c *SegCase) []rop {
 			}
 		case 2:
 			o.doc = pickDoc()
+			if rapid.IntRange(0, 2).Draw(t, "nestedVisit") == 0 {
+				o.nested, o.doc2 = true, pickDoc()
+				if c.Exp.N > 128 && rapid.Bool().Draw(t, "nestedOtherBlock") {
+					o.doc2 = (o.doc + 128) % uint64(c.Exp.N)
+				}
+			}
 		case 3:
 			o.doc = pickDoc()
 			o.fields = rapid.SliceOfN(rapid.SampledFrom(c.Exp.Fields), 1, 3).Draw(t, "dvFields")
@@ -461,6 +488,17 @@ func genRops(t *rapid.T, c *SegCase) []rop {
 		at := rapid.IntRange(0, len(ops)).Draw(t, "skipWalkAt")
 		walk := rop{kind: 1, field: p.f, term: p.t, adv: rapid.IntRange(1, 3).Draw(t, "skipWalkAdv"), reuse: rapid.Bool().Draw(t, "skipWalkReuse")}
 		ops = append(ops[:at:at], append([]rop{walk}, ops[at:]...)...)
+	}
+	// with some probability the sequence ends with stored visits re-entered from inside a visitor (two visits
+	// overlap: whatever per-visit state an earlier failed call left behind is now used twice at once)
+	if c.Exp.N > 0 && rapid.Bool().Draw(t, "nestedAtEnd") {
+		for k := rapid.IntRange(1, 2).Draw(t, "nNestedAtEnd"); k > 0; k-- {
+			o := rop{kind: 2, nested: true, doc: pickDoc(), doc2: pickDoc()}
+			if c.Exp.N > 128 {
+				o.doc2 = (o.doc + 128) % uint64(c.Exp.N)
+			}
+			ops = append(ops, o)
+		}
 	}
 	// segments with several 128-document stored blocks: visit one block, another one, and that one again
 	if c.Exp.N > 128 && rapid.IntRange(0, 1).Draw(t, "storedTriple") == 0 {
